@@ -14,6 +14,8 @@ class AmrReader(Reader):
 
     def initialize(self, meta, units, select):
         self.initialized = False
+        # Forget the cpu list computed for a previous load
+        self.cpu_list = None
         if select is False:
             return
 
